@@ -172,10 +172,18 @@ class ContainerSpace(Subspace):
         seams.set(executor=sched.NAMESPACE)
         sched.set_schedule(sched.Schedule())
         karr = np.asarray(d.keys[0])
+        arrow_int = case.get("arrow_int")
+        if arrow_int:
+            # the logical values of this sub-space are INTEGERS (the value tables of some seeds hold
+            # fractions): the NumPy baseline carries the same whole numbers as floats with NaN for null
+            def whole(v):
+                i = int(round(float(v) * 16))
+                return abs(i) % 251 if arrow_int.startswith("uint") else i
+            ints_py = [None if v is None else whole(v) for v in py_list(d.V)]
+            d.V = np.array([np.nan if v is None else float(v) for v in ints_py], dtype="f8")
+            d.py = list(ints_py)
         inputs = set(v for v in d.py if v is not None)
         in_family = dtype_family(str(d.V.dtype) if not tz else f"datetime64[{np.datetime_data(d.V.dtype)[0]}, {tz}]")
-
-        arrow_int = case.get("arrow_int")
 
         def val_container(cont, comp):
             if arrow_int and cont in ("pa_array", "pa_chunked", "pd_arrow", "polars"):
